@@ -116,7 +116,7 @@ def r2_position(ctx, seven):
               'the letter lookup strips + and -: the accidental does not move the position')
     rp = ctx.prog.func(f'{GK}.Clef.reference_point')
     rr = symex.returns(rp)
-    ctx.check(len(rr) == 1 and src(rr[0][1]) == 'PitchPositionReferenceSystem(self.bottom_line())', 'R2', rp.loc, rp.qualname,
+    ctx.check(len(rr) == 1 and F.same(ctx, rp, rr[0][1], 'PitchPositionReferenceSystem(self.bottom_line())'), 'R2', rp.loc, rp.qualname,
               'reference-is-bottom-line', 'the reference of a clef is its bottom-line pitch')
     st = ctx.prog.func(f'{GK}.Staff.position_in_staff')
     sr = symex.returns(st)
@@ -238,7 +238,7 @@ def r3_codec(ctx, seven):
     # identity under G2
     gb = ctx.prog.func(f'{GK}.GClef.bottom_line')
     r = symex.returns(gb)
-    okg = len(r) == 1 and src(r[0][1]) in ("AgnosticPitch('E', 4)", "AgnosticPitch(name='E', octave=4)")
+    okg = len(r) == 1 and F.same(ctx, gb, r[0][1], "AgnosticPitch('E', 4)")
     ctx.check(okg, 'R3', gb.loc, gb.qualname, 'g2-identity',
               'bottom_line(GClef) = E4: position 0 <-> e, so the agnostic spelling under G2 is the pitch itself',
               f'bottom_line(GClef) is `{src(r[0][1]) if r else None}`: the agnostic encoding under G2 is no longer the identity')
@@ -253,7 +253,7 @@ def r4_accidentals(ctx):
     pg = ctx.prog.func(f'{GK}.pitch_to_gkern_string')
     p = pg.params[0]
     r = symex.returns(pg)
-    ok = len(r) == 1 and src(r[0][1]) == f'gkern_to_g_clef_pitch(GKernExporter({pg.params[1]}).export(Staff(), {p})) + {p}.accidentals()'
+    ok = len(r) == 1 and F.same(ctx, pg, r[0][1], f'gkern_to_g_clef_pitch(GKernExporter({pg.params[1]}).export(Staff(), {p})) + {p}.accidentals()')
     ctx.check(ok, 'R4', pg.loc, pg.qualname, 'accidentals-appended',
               'pitch_to_gkern_string = G-clef letters of the staff position + the pitch\'s accidentals',
               f'pitch_to_gkern_string returns `{src(r[0][1])[:120] if r else None}`')
